@@ -38,6 +38,7 @@ META = {
             "attribution of findings to calls.",
     "technique": "TLA+ function spec (LibValid.tla), TLC-generated cases replayed into Library and the real binary, verdicts by TLC",
 }
+HARNESS = {}
 FULL = [-20, -15, -10, 0, 5, 10, 15, 20, 100]
 SMALL = [-10, 0, 15, 20]
 
@@ -200,7 +201,7 @@ def load_part(tier, seed, work, inputs=None):
             if fn.endswith(".cfg"):
                 with open(os.path.join(cfgdir, fn), "rb") as f:
                     inputs.append(("shipped-" + fn, "unmutated", f.read().decode("utf-8", "surrogateescape")))
-    obs = libvalid.run_loads(inputs, work, jobs=4)
+    obs = libvalid.run_loads(inputs, work, jobs=4, harness=HARNESS.get("exe"))
     of = os.path.join(work, "lo.ndjson")
     bf = os.path.join(work, "lb.ndjson")
     vlib.write_ndjson(of, obs)
@@ -243,7 +244,7 @@ def load_violations(lbad, texts, work):
         if b["signal"] and sig.endswith(":"):
             if nmin < 40:
                 nmin += 1
-                mintext, path = libvalid.minimise(texts[b["name"]], d, b["signal"], budget=100)
+                mintext, path = libvalid.minimise(texts[b["name"]], d, b["signal"], budget=100, harness=HARNESS.get("exe") if b.get("via") == "harness" else None)
                 sig += path
             else:
                 sig += "not-minimised"
@@ -255,7 +256,7 @@ def load_violations(lbad, texts, work):
     for sig, g in sorted(groups.items()):
         b = g["first"]
         if g["min"] is None and b["signal"]:
-            g["min"], _p = libvalid.minimise(texts[b["name"]], d, b["signal"], budget=120)
+            g["min"], _p = libvalid.minimise(texts[b["name"]], d, b["signal"], budget=120, harness=HARNESS.get("exe") if b.get("via") == "harness" else None)
         p = vlib.save_replay(PID, "load-" + vlib.digest(sig), {"kind": "load", "signature": sig, "obs": b, "name": b["name"], "count": g["n"],
                                                               "text": g["min"] if g["min"] is not None else texts[b["name"]],
                                                               "original_text": texts[b["name"]][:200000]})
@@ -269,6 +270,7 @@ def main(tier, seed, replay=None):
     t0 = time.time()
     vlib.build()
     exe = vlib.build_harness("libvalid_harness.cpp")
+    HARNESS["exe"] = exe
     work = vlib.mktmp("c30")
     if replay:
         return do_replay(replay, work, exe)
